@@ -21,9 +21,22 @@ KINDS = E.ROWWISE + E.TRANSFORMERS
 MODES = [("normal", {})]
 
 
+def _manyrows_ot():
+    """300 transform items under a memory_size that puts more than one 256-row chunk into a block"""
+    import random
+    r = random.Random(1212)
+    c = E.gen_case("wasserstein", r)
+    base = c["Xt"] + c["X"]
+    c["Xt"] = [list(base[i % len(base)]) for i in range(300)]
+    c["params"]["memory_size"] = "2G"
+    c["split"], c["perm_seed"], c["small_memory"], c["skip_singles"] = 150, 5, "100k", True
+    return c
+
+
 def corpus():
-    return [
+    return [_manyrows_ot(),
         {"kind": "lz", "params": {"max_columns": None}, "X": ["abab", "abc"], "Xt": ["zzab", "", "c", "abababab"], "split": 2, "perm_seed": 1},
+        {"kind": "lz", "params": {"max_columns": None, "base_dictionary": {"a": 0, "b": 0, "c": 0}}, "X": ["abab", "abc"], "Xt": ["abab", "zzab", "", "abab", "abababab"], "split": 2, "perm_seed": 3},
         {"kind": "bpe", "params": {"return_type": "sequences"}, "X": ["abab", "abc"], "Xt": ["a", "", "zz", "ababab"], "split": 3, "perm_seed": 2},
     ]
 
@@ -38,6 +51,8 @@ def generate(rng, tier):
             c = E.gen_case(kind, rng, tier)
             if kind == "bpe" and rng.random() < 0.5:
                 c["params"]["return_type"] = "sequences"
+            if kind == "lz" and c["params"].get("max_columns") is None and rng.random() < 0.6:
+                c["params"]["base_dictionary"] = {ch: rng.choice([0, 1]) for ch in "ab"}   # LZW-style start
             nT = len(c["X"]) + len(c["Xt"])
             c["split"] = rng.randint(0, nT)
             c["perm_seed"] = rng.randint(0, 10 ** 6)
@@ -91,7 +106,7 @@ def run_impl(case):
     for name, f in (("split", lambda: tr(T[:k]) + tr(T[k:])),
                     ("permuted", lambda: tr([T[i] for i in perm])),
                     ("dup", lambda: tr(T + [T[0]]) if T else []),
-                    ("singles", lambda: [tr([t])[0] for t in T])):
+                    ("singles", lambda: [tr([t])[0] for t in (T[:5] if case.get("skip_singles") else T)])):
         try:
             out[name] = f()
         except Exception as e:
